@@ -5,7 +5,7 @@
    graph at least once (transition cover); harness/c12vm realises each walk as a script on the real VM. *)
 EXTENDS VMRef, Json
 
-Key == ToString(<<h, stack, statics, frames, everCyc>>)
+Key == ToString(<<h, stack, statics, frames, everCyc, fault>>)
 EdgeRec == [op |-> last.op, a |-> last.a, b |-> last.b, kd |-> last.kd, refs |-> h.refs, walked |-> walked,
             cyc |-> everCyc, ns |-> NS]
 InitEmit == IF TLCGet("level") = 1 THEN PrintT(<<"@@INIT@@", Key>>) ELSE TRUE
